@@ -310,8 +310,65 @@ def mgmt_item(arg):
     return acc
 
 
+def tod_item(arg):
+    """Errors addressed by a time of day: the manifest translates the time into the media URLs; the synthetic error must
+    be produced for the segment whose interval contains that time, and for no other listed segment."""
+    stream, addressing, ks, tier = arg
+    from fractions import Fraction
+    from mc import mpd
+    w = W.World.shared(extras=True)
+    w.begin_item()
+    acc = core.Acc()
+    ast = datetime.datetime(2024, 3, 1, 12, 0, 0, tzinfo=datetime.timezone.utc)
+    now = ast + datetime.timedelta(seconds=47.5)
+    for k in ks:
+        tod = (ast + datetime.timedelta(seconds=k)).strftime('%H:%M:%SZ')
+        q = {'start': '2024-03-01T12:00:00Z', 'depth': '40', 'verr': f'503={tod}', 'aerr': f'404={tod}'}
+        if addressing == 'time':
+            q['timeline'] = '1'
+        url = f'/dash/live/{stream}/hand_made.mpd' + crawl.make_query(q)
+        W.set_now(now)
+        r = w.get(url)
+        acc.count('evaluations')
+        acc.count('transitions')
+        rec = {'kind': 'tod', 'stream': stream, 'addressing': addressing, 'ks': [k]}
+        if r.status != 200:
+            acc.violation(f'C16|tod|{addressing}|manifest-status-{r.status}', f'{url}: status {r.status}', rec)
+            continue
+        doc = mpd.Mpd(r.body, 'http://localhost' + url.split('?')[0])
+        for rep in doc.all_reps():
+            ctype = rep.content_type
+            if ctype not in ('video', 'audio'):
+                continue
+            code = 503 if ctype == 'video' else 404
+            segs = doc.segments(rep, now)
+            want = [sg for sg in segs if Fraction(sg['t'], rep.timescale) <= k < Fraction(sg['t'] + sg['d'], rep.timescale)]
+            hits = []
+            for sg in segs:
+                rr = w.get(mpd.split_url(sg['url']))
+                acc.count('transitions')
+                if rr.status == code and (rr.body or b'').startswith(b'Synthetic'):
+                    hits.append(sg)
+                elif rr.status >= 500:
+                    acc.violation(f'C16|tod|{addressing}|{ctype}|5xx', f'{mpd.split_url(sg["url"])}: {rr.status}', rec)
+            acc.state((stream, addressing, k, rep.id))
+            acc.nontriv((stream, addressing, k, rep.id))
+
+            def span(sg):
+                return f'[{float(Fraction(sg["t"], rep.timescale)):.2f},{float(Fraction(sg["t"] + sg["d"], rep.timescale)):.2f})'
+            if [sg['t'] for sg in hits] != [sg['t'] for sg in want]:
+                cls = 'none' if not hits else ('several' if len(hits) > 1 else
+                                               ('earlier' if want and hits[0]['t'] < want[0]['t'] else 'later'))
+                acc.violation(f'C16|tod|{addressing}|{ctype}|error-on-{cls}-segment',
+                              f'{url} ({rep.id}): the error addressed at {tod} (+{k} s) is produced for '
+                              f'{[span(sg) for sg in hits]}, the segment containing that time is {[span(sg) for sg in want]}', rec)
+    return acc
+
+
 def _dispatch(item):
     kind, arg = item
+    if kind == 'tod':
+        return tod_item(arg)
     if kind == 'mgmt':
         return mgmt_item(arg)
     if kind == 'hostile':
@@ -357,6 +414,11 @@ def run(ctx):
     for ch in core.chunks(routes if not ctx.quick else routes[::3], 6):
         items.append(('header', (ch, ctx.tier)))
     items.append(('body', ctx.tier))
+    for stream in ('bbb', 'tears'):
+        for addressing in ('number', 'time'):
+            ks = list(range(8, 47)) if not ctx.quick else list(range(8, 47, 3)) + [9, 12, 16]
+            for ch in core.chunks(sorted(set(ks)), 5):
+                items.append(('tod', (stream, addressing, ch, ctx.tier)))
     from props import c17
     for n, _, _ in c17.ACTIONS:
         items.append(('mgmt', (n, ctx.tier)))
@@ -389,6 +451,9 @@ def replay(record):
     elif k == 'body':
         r = w.request('POST', record['url'], json_body=record['body'])
         judge(acc, 'json', f"POST {record['url']} {repr(record['body'])[:60]}", None, r, record)
+    elif k == 'tod':
+        a = tod_item((record['stream'], record['addressing'], record['ks'], 'quick'))
+        return [(s_, v[0]['what']) for s_, v in a.viol.items()]
     elif k == 'mgmt':
         from props import c17
         env = c17.Env.get()
